@@ -35,6 +35,16 @@ inline bool isControlFrame(WsOpcode op)
   return op == WsOpcode::CLOSE || op == WsOpcode::PING || op == WsOpcode::PONG;
 }
 
+/// \brief Verdict of WebSocketFrame::inspectHeader() on the bytes at the head of a
+/// receive buffer for which parse() returned nullopt.
+enum class WsHeaderStatus : std::uint8_t
+{
+  NEED_MORE,      ///< too few bytes to tell
+  OK,             ///< acceptable header; the frame is merely incomplete
+  PROTOCOL_ERROR, ///< can never become a valid frame (RFC 6455 §5.2/§5.5) -> close 1002
+  TOO_LARGE       ///< declared payload exceeds the caller's limit -> close 1009
+};
+
 /// \brief Parsed WebSocket frame.
 struct WebSocketFrame
 {
@@ -136,6 +146,45 @@ struct WebSocketFrame
     pos += static_cast<std::size_t>(payloadLen);
     consumed = pos;
     return frame;
+  }
+
+  /// \brief Classify the frame header at the start of `data` WITHOUT consuming it.
+  /// parse() reports both "incomplete" and "protocol error" as nullopt; a receive
+  /// loop must call this when parse() returns nullopt, otherwise a frame that can
+  /// never be accepted (control frame with an extended length or FIN clear, 64-bit
+  /// length with the top bit set, declared payload above the configured maximum)
+  /// is waited for forever while every later byte is buffered behind it.
+  static WsHeaderStatus inspectHeader(core::BufferView data,
+                                      std::uint64_t maxPayload = ~std::uint64_t{0})
+  {
+    if (data.size() < 2)
+    {
+      return WsHeaderStatus::NEED_MORE;
+    }
+    const std::uint8_t byte0 = data[0];
+    const std::uint8_t byte1 = data[1];
+    const std::uint8_t lenCode = byte1 & 0x7F;
+    if (isControlFrame(static_cast<WsOpcode>(byte0 & 0x0F)) &&
+        (lenCode > 125 || (byte0 & 0x80) == 0))
+    {
+      return WsHeaderStatus::PROTOCOL_ERROR;
+    }
+    std::uint64_t payloadLen = lenCode;
+    if (lenCode == 126)
+    {
+      if (data.size() < 4) return WsHeaderStatus::NEED_MORE;
+      payloadLen = data.readU16BE(2);
+    }
+    else if (lenCode == 127)
+    {
+      if (data.size() < 10) return WsHeaderStatus::NEED_MORE;
+      payloadLen = data.readU64BE(2);
+      if ((payloadLen >> 63) != 0)
+      {
+        return WsHeaderStatus::PROTOCOL_ERROR; // RFC 6455 §5.2: MSB must be 0
+      }
+    }
+    return payloadLen > maxPayload ? WsHeaderStatus::TOO_LARGE : WsHeaderStatus::OK;
   }
 
   /// \brief Serialize this frame to wire format.
